@@ -95,6 +95,7 @@ def case_strategy(draw):
 
 class C20Token(Check):
     ID = "C20"
+    REGRESS_PREFIX = "token__"
     PROBE = "san"
     PROBE_GROUP = "deck"
     PROBE_ENV = {"OMP_NUM_THREADS": "1"}
